@@ -243,6 +243,20 @@ def _run_d(case):
       g = htf.PhaseGroup(setup=[ph])
       d = g.copy().setup.nodes[0]
       ph = g.setup.nodes[0]
+    elif how in ('ctxgroup', 'ctxgroup2', 'groupwrap', 'groupcombine'):
+      # groups made by a with_teardown / with_context creator, and combinations of groups: each has its own copies of
+      # the nodes (fixed: the creator's groups all shared one phase object; wrap / combine reused their operands' nodes)
+      if how == 'ctxgroup':
+        d = htf.PhaseGroup.with_teardown(ph)().teardown.nodes[0]
+      elif how == 'ctxgroup2':
+        w = htf.PhaseGroup.with_context([ph], [ph])
+        ph, d = w().setup.nodes[0], w().setup.nodes[0]
+      elif how == 'groupwrap':
+        g = htf.PhaseGroup(teardown=[ph])
+        ph, d = g.teardown.nodes[0], g.wrap([ph]).teardown.nodes[0]
+      else:
+        g = htf.PhaseGroup(main=[ph])
+        ph, d = g.main.nodes[0], g.combine(htf.PhaseGroup(setup=[ph])).main.nodes[0]
     elif how == 'test':
       d = list(htf.Test(ph).descriptor.phase_sequence.all_phases())[0]
     else:
@@ -502,7 +516,8 @@ DERIVES = ['with_args', 'with_args_none', 'with_plugs', 'with_plugs_none', 'copy
 def gen_cases(rng, tier):
   quick = tier == 'quick'
   cases = []
-  for how in ('copy', 'options', 'measures', 'load_code_info', 'seq', 'group', 'nested', 'groupcopy', 'test', 'wrap'):
+  for how in ('copy', 'options', 'measures', 'load_code_info', 'seq', 'group', 'nested', 'groupcopy', 'test', 'wrap', 'ctxgroup', 'ctxgroup2',
+              'groupwrap', 'groupcombine'):
     cases.append({'kind': 'D', 'op': 'copy', 'how': how})
   for op in ('withArgs', 'withPlugsMatch', 'withPlugsNone'):
     cases.append({'kind': 'D', 'op': op})
